@@ -76,7 +76,7 @@ func scriptClass(in input) string {
 				}
 				connPeer = append(connPeer, m.A)
 			}
-		case "incominghold":
+		case "incominghold", "incomingholdacc":
 			if !closedSet {
 				connPeer = append(connPeer, m.A)
 			}
@@ -169,6 +169,11 @@ func corpus() []interface{} {
 		out = append(out, sc(tcp, m1("incoming", 0), m2("deliverhold", 0, 5), m1("peerclose", 0), m1("send", 0), m1("deliverrelease", 0), m0("stop")))
 		// two dialled connections to one peer: the first Send is held at router.connected while a second one connects
 		out = append(out, sc(tcp, m1("sendhold", 0), m1("send", 0), m1("sendrelease", 0), m1("peerclose", 1), m0("stop")))
+		// a connection arriving exactly during Stop: accepted, its callback starts after the closed flag is set
+		out = append(out, sc(tcp, m1("incomingholdacc", 0), m0("stop"), m1("incomingrelease", 0)))
+		out = append(out, sc(tcp, m1("incoming", 0), m1("incomingholdacc", 0), m0("stophold"), m1("incomingrelease", 1), m1("stoprelease", 0), m0("stop")))
+		// ... and one that is released before the stop
+		out = append(out, sc(tcp, m1("incomingholdacc", 0), m1("incomingrelease", 0), m2("deliver", 0, 7), m0("stop")))
 		// Stop between registerConnection and launchHandleRoutine
 		out = append(out, sc(tcp, m1("sendholdreg", 0), m0("stop"), m1("sendrelease", 0)))
 		out = append(out, sc(tcp, m1("incoming", 0), m1("sendholdreg", 1), m0("stophold"), m1("sendrelease", 0), m1("stoprelease", 0), m0("stop")))
@@ -272,6 +277,10 @@ func genScript(rng *rand.Rand, tcp bool) input {
 			ms = append(ms, m1("incomingsilent", p))
 			silents = append(silents, nconn)
 			conns = append(conns, cinfo{})
+		case 3:
+			ms = append(ms, m1("incomingholdacc", p))
+			heldIns = append(heldIns, nconn)
+			conns = append(conns, cinfo{})
 		}
 		nconn++
 	}
@@ -311,7 +320,7 @@ func genScript(rng *rand.Rand, tcp bool) input {
 		case 0:
 			addSend(true)
 		case 1:
-			addIncoming(1)
+			addIncoming(1 + 2*rng.Intn(2))
 		case 2:
 			addDeliver(true)
 		case 3:
